@@ -7,6 +7,8 @@ seam is the constructor argument the property itself quantifies over.
 One driver run = one sampled sorted fragment sequence x EVERY check_eject_every in
 {None, 0..n} x both pooling methods (schedules exhaustive per sampled input).
 """
+import collections
+
 from ..rng import Streams, weighted
 from ..log import EventLog
 from ..gen import library as lib
@@ -31,7 +33,7 @@ COMPONENTS = {
     'stub': [],
 }
 ISOLATE = True      # every case runs in a forked child of the worker: no repository state travels between cases
-REQUIRED_PROBES = ['plain_cross_pooling_comparable', 'fragment_at_coordinate_0', 'same_coordinates_on_two_contigs', 'abandoned_pass_then_full_pass', 'single_end_long_reads', 'plain_chained_fragments', 'ejection_popped', 'non_prefix_pop_list', 'final_flush_nonempty', 'duplicate_arrives_after_ejectable_unrelated']
+REQUIRED_PROBES = ['crowded_buffer_layout', 'more_duplicates_than_the_cap', 'plain_cross_pooling_comparable', 'fragment_at_coordinate_0', 'same_coordinates_on_two_contigs', 'abandoned_pass_then_full_pass', 'single_end_long_reads', 'plain_chained_fragments', 'ejection_popped', 'non_prefix_pop_list', 'final_flush_nonempty', 'duplicate_arrives_after_ejectable_unrelated']
 EXHAUSTIVE_NOTE = 'check_eject_every is enumerated exhaustively (None, 0..n) per sampled input and pooling method; inputs and cache sizes are sampled'
 
 
@@ -46,9 +48,58 @@ def setup():
     import singlecellmultiomics.fragment  # noqa
 
 
+def _crowded(w, kind, ncell):
+    """single-end layout with a CROWDED buffer: 8..14 molecules created one base apart, most of them long (open for a long time), a few short ones
+    scattered between them (ejectable early, at buffer indices on both sides of 8), then one long read whose END lies beyond the short ones'
+    ejection bound but inside the long ones' - the check it triggers must pop a non-prefix index set - and afterwards duplicates of some long
+    molecules (reads ending on the same base).  Every read is shorter than cache_size/2."""
+    cache = w.choice([400, 1000, 10000])
+    fo, ro = lib._OFF[kind]
+    top = cache // 2 - 1
+    base = w.randint(cache, 2 * cache)
+    frags = []
+
+    def add(start, length, rev, cell, umi, mol):
+        site = (start - fo) if not rev else (start + length - ro)
+        frags.append({'n': len(frags), 'cell': cell, 'ctg': 0, 'site': site, 'rev': rev, 'umi': umi, 'L': length, 'rl': length,
+                      'kind': kind, 'defect': 'single', 'clip': 0, 'mol': mol})
+    K = w.randint(8, 14)
+    short_idx = set(w.sample(range(K), w.randint(2, 4)))
+    if K > 8 and w.random() < 0.7:
+        short_idx = {8, w.randrange(8)} | set(w.sample(range(K), w.randint(0, 2)))
+    umis = lib.umi_pool(w, K + 4)
+    long_len = top - w.randint(5, 40)
+    ends = {}
+    for i in range(K):
+        cell = w.randrange(ncell)
+        if i in short_idx:
+            add(base + i, w.randint(20, 30), w.random() < 0.5, cell, umis[i], i)
+        else:
+            ln = long_len - (i % 3)
+            add(base + i, ln, True, cell, umis[i], i)
+            ends[i] = (base + i + ln, cell, umis[i])
+    t_len = top - w.randint(0, 5)
+    t_start = (base + K + 30) + (top + 1) + 2 - t_len + w.randint(0, 10)
+    add(t_start, t_len, False, w.randrange(ncell), umis[K], K)
+    for i in w.sample(sorted(ends), min(len(ends), w.randint(1, 3))):
+        e, cell, umi = ends[i]
+        ln = w.randint(20, max(20, min(60, e - t_start - 2)))
+        if e - ln > t_start:
+            add(e - ln, ln, True, cell, umi, i)
+    for j in range(w.randint(0, 3)):
+        add(t_start + w.randint(1, top), w.randint(20, 40), w.random() < 0.5, w.randrange(ncell), umis[K + 1 + j], K + 1 + j)
+    return cache, frags
+
+
 def generate(seed, tier):
     st = Streams(seed)
     w = st.workload
+    if w.random() < 0.12:
+        kind = w.choice(['nla', 'plain'])
+        cache, frags = _crowded(w, kind, w.choice([1, 2, 3]))
+        return {'params': {'cache_size': cache, 'pooling': [0, 1], 'umi_hd': 0, 'kind': kind, 'layout': 'single-end-crowded', 'cap': None},
+                'workload': frags, 'schedules': [None] + list(range(0, len(frags) + 1)),
+                'reiterate': [[st.schedule.choice([None, 0, 1, 2, 5]), st.schedule.randint(0, 3)] for _ in range(2)]}
     cache = w.choice([200, 200, 400, 400, 1000, 10000])
     rl = w.choice([20, 30, 40]) if cache >= 200 else 20
     rl = min(rl, cache // 4)
@@ -139,14 +190,17 @@ def generate(seed, tier):
                         f['site'] = o['site']
                 byn[f['n']] = f
         frags = [dict(g, n=i) for i, g in enumerate(frags) if min(v for v in lib.full_coords(g) if v is not None) >= 0]
-    return {'params': {'cache_size': cache, 'pooling': [0, 1], 'umi_hd': 0, 'kind': kind, 'layout': layout},
+    # a cap on the fragments per molecule (a molecule_class argument of several tools): surplus duplicates are emitted alone while the full
+    # molecule is buffered - which must not depend on when the buffer is inspected either
+    cap = w.choice([None, None, None, 1, 2, 3])
+    return {'params': {'cache_size': cache, 'pooling': [0, 1], 'umi_hd': 0, 'kind': kind, 'layout': layout, 'cap': cap},
             'workload': frags,
             'schedules': [None] + list(range(0, len(frags) + 1)),
             # histories on ONE iterator object: a pass abandoned after k molecules (consumer break / exception), then a complete pass
             'reiterate': [[st.schedule.choice([None, 0, 1, 2, 5]), st.schedule.randint(0, 3)] for _ in range(2)]}
 
 
-def _run(header, frags_sorted, cache, pooling, sched, kind='nla'):
+def _run(header, frags_sorted, cache, pooling, sched, kind='nla', cap=None):
     from singlecellmultiomics.molecule import MoleculeIterator, NlaIIIMolecule, Molecule
     from singlecellmultiomics.fragment import NlaIIIFragment, Fragment
     mcls, fcls, fargs = NlaIIIMolecule, NlaIIIFragment, {'umi_hamming_distance': 0}
@@ -160,7 +214,7 @@ def _run(header, frags_sorted, cache, pooling, sched, kind='nla'):
             yield lib.build_pair(header, f)
 
     it = MoleculeIterator(source(), molecule_class=mcls, fragment_class=fcls,
-                          molecule_class_args={'cache_size': cache},
+                          molecule_class_args={'cache_size': cache} if not cap else {'cache_size': cache, 'max_associated_fragments': cap},
                           fragment_class_args=fargs,
                           pooling_method=pooling, check_eject_every=sched, perform_qflag=False)
     groups = []
@@ -182,12 +236,16 @@ def execute(case):
     fs = lib.sort_fragments(frags)
     arrival = {f['n']: i for i, f in enumerate(fs)}
     kind = p.get('kind', 'nla')
-    truth = {frozenset(v) for v in lib.truth_classes(frags).values()} if kind == 'nla' else None
+    truth = {frozenset(v) for v in lib.truth_classes(frags).values()} if (kind == 'nla' and not p.get('cap')) else None
+    if p.get('cap'):
+        probe_cap = collections.Counter((f['cell'], f['ctg'], f['site'], f['rev'], f['umi']) for f in frags)
     viol, probes, sigs = [], {}, []
 
     def probe(k, n=1):
         probes[k] = probes.get(k, 0) + n
 
+    if p.get('cap') and any(v > p['cap'] for v in probe_cap.values()):
+        probe('more_duplicates_than_the_cap')
     if kind == 'plain':
         probe('plain_chained_fragments')
         seen_xy = {}
@@ -197,6 +255,8 @@ def execute(case):
             probe('same_coordinates_on_two_contigs')
     if p.get('layout') == 'single-end-long-reads':
         probe('single_end_long_reads')
+    if p.get('layout') == 'single-end-crowded':
+        probe('crowded_buffer_layout')
     if any(min(v for v in lib.full_coords(f) if v is not None) == 0 for f in frags):
         probe('fragment_at_coordinate_0')
 
@@ -216,7 +276,7 @@ def execute(case):
                 continue
             evals += 1
             try:
-                groups = _run(header, fs, cache, pooling, sched, kind)
+                groups = _run(header, fs, cache, pooling, sched, kind, p.get('cap'))
             except Exception as e:
                 viol.append({'property': PROPERTY, 'class': 'iterator-raised', 'signature': type(e).__name__,
                              'detail': {'pooling': pooling, 'schedule': sched, 'error': repr(e)[:300]}})
@@ -264,7 +324,7 @@ def execute(case):
                                         'got_only': sorted(map(sorted, part - base))[:4], 'ref_only': sorted(map(sorted, base - part))[:4]}})
     # ---- base classes: the two pooling methods compare differently (per member vs against the union span) and may legitimately differ on
     # bridging layouts; where the two linkage rules (reference models below) prescribe the SAME partition, the statement's cross-pooling clause applies
-    if kind == 'plain' and 0 in refs and 1 in refs:
+    if kind == 'plain' and 0 in refs and 1 in refs and not p.get('cap'):
         m0, m1 = _plain_models(header, fs)
         if m0 == m1:
             probe('plain_cross_pooling_comparable')
